@@ -824,6 +824,17 @@ func evalChain(name string) (vs []*verdict, classes []string) {
 		case 6:
 			addUncle(1)
 			b.AddTx(mk(n, &sdFresh.addr, 2, nil)) // moves the balance to a fresh account: nothing is burnt
+		case 7, 9:
+			// the address a creation is about to use already holds coins (sent to it earlier in this block),
+			// and the creation then fails: nothing may be lost or created (7: INVALID, 9: REVERT with endowment)
+			future := crypto.CreateAddress(senderAddr, nonce+1)
+			b.AddTx(mk(n, &future, 1234, nil))
+			init := []byte{0xfe}
+			if n == 9 {
+				init = []byte{0x60, 0x00, 0x60, 0x00, 0xfd}
+			}
+			b.AddTx(mk(n, nil, 5, init))
+			b.AddTx(mk(n, &future, 4321, nil))
 		case 8:
 			addUncle(3)
 			b.AddTx(mk(n, &addrEOA, 1, nil))
